@@ -68,6 +68,10 @@ func c06Context(c *mon.Ctx, a any, hs []ref.Hunk) bool {
 				}
 			}
 		}
+		if (len(h.Path) == 0 || h.Path[len(h.Path)-1].Kind != ref.KIndex) && (len(h.Before) > 0 || len(h.After) > 0) {
+			c.Violation(fmt.Sprintf("hunk %d edits no array position (path %s) but carries context lines", k, h.PathString()), map[string]any{"hunk": h.String()})
+			return false
+		}
 		next, err := ref.RefPatch(state, hs[k:k+1], ref.Dev{})
 		if err != nil {
 			c.Violation(fmt.Sprintf("hunk %d does not apply to the document state produced by the earlier hunks: %v", k, err), map[string]any{"hunk": h.String(), "state": ref.ToJSON(state)})
